@@ -30,7 +30,8 @@ THEOREMS = [
     'source_send_error_total', 'result_encoding', 'error_reply_name', 'unencodable_value_one_error',
     'prefix_model_violates_exactly_one', 'unbound_witness', 'unexport_witness', 'table_shape',
     'deferred_after_unexport_one_reply', 'deferred_after_unexport_witness', 'builtin_reply', 'builtin_witness',
-    'properties_call_reply_is_c17', 'properties_get_error_exact', 'properties_set_getall_error_exact', 'properties_lookup_errors', 'library_serves_plain_objects', 'builtin_table_shape',
+    'properties_call_reply_is_c17_partial', 'properties_reply_observed_as_c17', 'callStep_moves_c17_state',
+    'get_through_dispatcher_returns_last_write', 'set_then_get_through_dispatcher', 'properties_get_error_exact', 'properties_set_getall_error_exact', 'properties_lookup_errors', 'library_serves_plain_objects', 'builtin_table_shape',
     'properties_witness', 'empty_interface_name_binding', 'empty_name_witness', 'property_key_order_witness',
 ]
 TRUSTED_BASE = [
